@@ -513,7 +513,10 @@ def judge(case, expect, obs):
     for rn in obs["next"]:
         o = {"aged": rn["aged"], "rc": rn["rc"], "reply": rn["rate_reply"], "stdout": rn["stdout_tail"],
              "cache_after_run1": obs["after"], "cache_after_next": rn["after"]}
-        if rn["hung"] or rn["rc"] != 0 or not rn["sum_ok"]:
+        if rn["hung"]:
+            v.append(("next-start-hang", "the next start ends (limit %ds) and answers 1+1" % RUN_LIMIT, o))
+            continue
+        if rn["rc"] != 0 or not rn["sum_ok"]:
             v.append(("next-start", "the next start succeeds and answers 1+1", o))
             continue
         if rn["after"] != obs["after"] and not (obs["after"] == "mixed"):
@@ -681,18 +684,24 @@ def run_many(ctx, jobs, workers):
         return [f.result() for f in futs]
 
 
+TIMING_KINDS = ("hang", "next-start-hang")
+
+
 def settle(run, ctx, case, ageds, expect, obs):
-    """judge; a suspected violation is believed only if it shows again when the case runs alone"""
+    """judge; what is on disk and what rink printed is believed as it is - only a verdict that rests on a
+    time limit (a run called a hang) must show again when the case runs alone before it is believed"""
     viols, drifts = judge(case, expect, obs)
-    if viols:
-        log("[C20] suspected %s on %s - running the case again, alone" % ([k for k, _, _ in viols], case_key(case)))
+    timing = [x for x in viols if x[0] in TIMING_KINDS]
+    if timing:
+        log("[C20] suspected %s on %s - running the case again, alone" % ([k for k, _, _ in timing], case_key(case)))
         obs2 = execute(ctx, case, ageds)
         viols2, drifts2 = judge(case, expect, obs2)
-        if not viols2:
-            run.drift_note("harness", "a suspected violation %s on %s did not reproduce when run alone (not counted)"
-                           % ([k for k, _, _ in viols], case_key(case)))
-            return obs2, [], drifts2
-        return obs2, viols2, drifts2
+        if not [x for x in viols2 if x[0] in TIMING_KINDS]:
+            run.drift_note("harness", "a run of %s exceeded %ds once but not when run alone (not counted)"
+                           % (case_key(case), RUN_LIMIT))
+            viols = [x for x in viols if x[0] not in TIMING_KINDS]
+            if not viols:
+                return obs2, viols2, drifts2
     return obs, viols, drifts
 
 
@@ -805,6 +814,8 @@ def run(tier, seed):
         if kjobs and not hits and not run.violations:
             raise vlib.ToolError("kill sweep: no injected SIGKILL ever hit (strace inject not working?)")
         run.note("kill_runs", len(kjobs))
+        if thorough:
+            run.cov["exhaustive"] = True     # every combination of the model's finite space x every kill point found
         run.note("kills_delivered_by_syscall", hits)
         if kjobs:
             i = next((i for i, o in enumerate(kobs) if o["kill_hit"] and o["kill_hit"]["syscall"].startswith("rename")), 0)
